@@ -9,7 +9,8 @@ from vlib.core import Infra, ndjson_text
 K = 3   # records of the harness' name length per 16 KiB page
 
 WNAMES = ['W_SameNameTwice', 'W_LostLink', 'W_DupFound', 'W_ScanBeyondMapping', 'W_BothExtend', 'W_LookupBeyondMapping',
-          'W_ReserveRaced', 'W_ValueRaced', 'W_UnwrittenSeen', 'W_KilledAfterReserve', 'W_KilledAfterWrite', 'W_KilledMidAdd']
+          'W_ReserveRaced', 'W_ValueRaced', 'W_UnwrittenSeen', 'W_KilledAfterReserve', 'W_KilledAfterWrite', 'W_KilledMidAdd',
+          'W_BothCreate', 'W_LateHeader', 'W_KilledCreating']
 
 
 def names_of(p):
@@ -17,19 +18,19 @@ def names_of(p):
     return list(p[1]) if isinstance(p[1], (list, tuple)) else [p[1]]
 
 
-def fam(name, procs, init_slots, warm=None, warmval=0, maxval=1000):
+def fam(name, procs, init_slots, warm=None, warmval=0, maxval=1000, create=False):
     # a process may give a record up and allocate another one (repaired F16): one spare slot per process
     # warm: a counter whose record exists before the race, with a value `maxval - warmval` short of the
     # saturation limit (the model counts relative to 2^64-1-maxval)
     return dict(name=name, procs=procs, init=init_slots, maxslots=init_slots + 2 * sum(len(names_of(p)) for p in procs) + (1 if warm else 0),
-                warm=warm, warmval=warmval, maxval=maxval)
+                warm=warm, warmval=warmval, maxval=maxval, create=create)
 
 
 # Scripted scenarios for windows that need more processes than TLC can explore exhaustively: each entry is a
 # label-aligned script ("task>>fn|kind|k" = run the task until it is suspended for the k-th time in front of that
 # operation).  The recorded traces are still validated against CounterFile.tla and judged by CounterFileObs.tla.
 DEEP = dict(name='deepremap', procs=[('pA', 'n1'), ('pC', 'n3'), ('pB', 'n2'), ('pD', 'n6'), ('pE', 'n7'), ('pF', 'n4')], init=5, maxslots=5 + 8, scripted=True,
-            warm=None, warmval=0, maxval=1000)
+            warm=None, warmval=0, maxval=1000, create=False)
 DEEP_SCRIPTS = [
     # pA looks n1 up with a mapping that is two growths behind: the file is extended twice while pA is inside
     # newCounter's remap loop (second failure of the lookup after the first remap)
@@ -59,6 +60,10 @@ def families():
         # each process creates two counters one after the other, in opposite order: the second creation
         # starts from whatever mapping and table the first one (and the other process) left behind
         fam('twice2', [('p1', ['n1', 'n2']), ('p2', ['n2', 'n1'])], 1),
+        # the file does not exist yet: both processes create it (openMapped's set-up block run concurrently,
+        # a late process re-writing the header of a file that already has records, a creator killed half-way)
+        fam('create2', [('p1', 'n1'), ('p2', 'n2')], 0, create=True),
+        fam('create2same', [('p1', 'n1'), ('p2', 'n1')], 0, create=True),
     ]
     big = [
         fam('same3', [('p1', 'n1'), ('p2', 'n1'), ('p3', 'n1')], 3),
@@ -85,8 +90,8 @@ MCBucketOf == ("n1" :> "b1" @@ "n2" :> "b1" @@ "n3" :> "b2" @@ "n4" :> "b1" @@ "
 
 def mc_cfg(f, spec='Spec', invariants=(), props=(), kill=True, deadlock=False):
     s = ('SPECIFICATION %s\nCONSTANTS\n Procs <- MCProcs\n NamesOf <- MCNamesOf\n Names <- MCNames\n BucketOf <- MCBucketOf\n'
-         ' Buckets = {"b1", "b2", "b3"}\n K = %d\n InitSlots = %d\n MaxSlots = %d\n MaxPages = 8\n MaxTries = 10\n AllowKill = %s\n FixF16 = TRUE\n MaxVal = %d\n WarmName = "%s"\n WarmVal = %d\n') % (
-        spec, K, f['init'], f['maxslots'], 'TRUE' if kill else 'FALSE', f['maxval'], f['warm'] or 'none', f['warmval'])
+         ' Buckets = {"b1", "b2", "b3"}\n K = %d\n InitSlots = %d\n MaxSlots = %d\n MaxPages = 8\n MaxTries = 10\n AllowKill = %s\n FixF16 = TRUE\n MaxVal = %d\n WarmName = "%s"\n WarmVal = %d\n Create = %s\n') % (
+        spec, K, f['init'], f['maxslots'], 'TRUE' if kill else 'FALSE', f['maxval'], f['warm'] or 'none', f['warmval'], 'TRUE' if f.get('create') else 'FALSE')
     if invariants:
         s += 'INVARIANTS ' + ' '.join(invariants) + '\n'
     if props:
@@ -125,6 +130,9 @@ PC_LABEL = {
     'K_giveup': ('(*mappedFile).newCounter<', 'Uint32.Store'),
     'S_len': ('entryAt<(*mappedFile).newCounter', 'Uint32.Load'), 'S_next': ('entryAt<(*mappedFile).newCounter', 'Uint32.Load'),
     'V_load': ('(*Counter).add', 'Uint64.Load'), 'V_cas': ('(*Counter).add', 'Uint64.CompareAndSwap'),
+    'O_open': ('openMapped<(*file).rotate1', 'os.OpenFile'), 'O_stat': ('openMapped<(*file).rotate1', 'file.Stat'),
+    'O_whdr': ('openMapped<(*file).rotate1', 'file.WriteAt'), 'O_wtail': ('openMapped<(*file).rotate1', 'file.WriteAt'),
+    'O_stat2': ('openMapped<(*file).rotate1', 'file.Stat'),
 }
 
 
@@ -195,7 +203,7 @@ def run(ctx):
         rid = len(runs) + 1
         runs.append(dict(id=rid, family=f['name'], procs=[dict(name=p[0], ctr=names_of(p)[0], ctrs=names_of(p)) for p in f['procs']], initSlots=f['init'],
                          maxSlots=f['maxslots'], schedule=sched, finish=finish, seed=rng.randrange(1 << 30), trace=True,
-                         warm=f['warm'] or '', warmVal=f['warmval'], maxVal=f['maxval'] if f['warm'] else 0))
+                         warm=f['warm'] or '', warmVal=f['warmval'], maxVal=f['maxval'] if f['warm'] else 0, create=bool(f.get('create'))))
         runfam[rid] = (f, why)
 
     oneshot = ['OneShot(i, W) == IF W /\\ TLCGet(i) = 0 THEN TLCSet(i, 1) /\\ FALSE ELSE TRUE', 'ASSUME \\A i \\in 1..40 : TLCSet(i, 0)',
